@@ -60,6 +60,13 @@ pub struct Case {
     /// one streaming call keeps sending for a long (virtual) time after the signal: two more messages, 25 s apart
     #[serde(default)]
     pub long_tail: bool,
+    /// the incoming stream ends at this virtual time whatever the signal does (possibly before it): the server
+    /// then drains by itself; serve must still wait for the accepted connections
+    #[serde(default)]
+    pub early_close_ms: Option<u16>,
+    /// `Server::max_connection_age`: connections are wound down gracefully at that age, before or after the signal
+    #[serde(default)]
+    pub max_age_ms: Option<u16>,
 }
 
 fn call_spec() -> BoxedStrategy<CallSpec> {
@@ -98,8 +105,21 @@ pub fn strategy() -> BoxedStrategy<Case> {
         3 => (any::<u16>(), 0u8..4).prop_map(|(s, j)| Signal::OnSent(s, j)),
         2 => any::<u16>().prop_map(Signal::OnCompleted),
     ];
-    (proptest::collection::vec(conn, 1..=3), signal, any::<bool>(), any::<bool>(), any::<u64>(), prop_oneof![4 => Just(0u8), 1 => Just(30u8)], proptest::bool::weighted(0.3), proptest::bool::weighted(0.2), proptest::bool::weighted(0.2))
-        .prop_map(|(mut conns, signal, post_conn, post_call, rt_seed, backlog, close_listener, accept_error, long_tail)| {
+    (
+        proptest::collection::vec(conn, 1..=3),
+        signal,
+        any::<bool>(),
+        any::<bool>(),
+        any::<u64>(),
+        prop_oneof![4 => Just(0u8), 1 => Just(30u8)],
+        proptest::bool::weighted(0.3),
+        proptest::bool::weighted(0.2),
+        proptest::bool::weighted(0.2),
+        (proptest::option::weighted(0.15, 1u16..=150), proptest::option::weighted(0.15, 1u16..=200)),
+    )
+        .prop_map(|(mut conns, signal, post_conn, post_call, rt_seed, backlog, close_listener, accept_error, long_tail, (early_close_ms, max_age_ms))| {
+            // an early end of the incoming stream is a scenario of its own
+            let (post_conn, post_call, backlog, close_listener) = if early_close_ms.is_some() { (false, false, 0, false) } else { (post_conn, post_call, backlog, close_listener) };
             let backlog = if matches!(signal, Signal::AtMs(_)) { backlog } else { 0 };
             if long_tail {
                 // the first streaming call (if any) gets a long tail
@@ -109,7 +129,7 @@ pub fn strategy() -> BoxedStrategy<Case> {
                     }
                 }
             }
-            Case { conns, signal, post_conn: post_conn && !close_listener, post_call, rt_seed, backlog, close_listener, accept_error, long_tail }
+            Case { conns, signal, post_conn: post_conn && !close_listener, post_call, rt_seed, backlog, close_listener, accept_error, long_tail, early_close_ms, max_age_ms }
         })
         .boxed()
 }
@@ -134,6 +154,7 @@ struct Scenario {
     serve_result_ok: bool,
     signal_ms: Option<u64>,
     post_conn: Option<(bool, u64)>,
+    listener_closed_ms: Option<u64>,
     post_call: Option<CallResult>,
     conn_closed_ms: Vec<Option<u64>>,
     accepted_conns: usize,
@@ -211,16 +232,34 @@ pub fn run(c: &Case, o: &mut Outcome) -> Result<(), Failure> {
                 fired.notify_one();
             }
         };
-        let router = tonic::transport::Server::builder().add_service(vt::raw_server::RawServer::new(sh2.clone()));
+        let mut builder = tonic::transport::Server::builder();
+        if let Some(a) = case.max_age_ms {
+            builder = builder.max_connection_age(Duration::from_millis(a as u64));
+        }
+        let router = builder.add_service(vt::raw_server::RawServer::new(sh2.clone()));
+        let serve_done = Arc::new(tokio::sync::Notify::new());
         let srv = {
             let scen = scen.clone();
+            let serve_done = serve_done.clone();
             tokio::spawn(async move {
                 let r = router.serve_with_incoming_shutdown(incoming, signal_fut).await;
-                let mut s = scen.lock().unwrap();
-                s.serve_done_ms = rt::virtual_ms();
-                s.serve_result_ok = r.is_ok();
+                {
+                    let mut s = scen.lock().unwrap();
+                    s.serve_done_ms = rt::virtual_ms();
+                    s.serve_result_ok = r.is_ok();
+                }
+                serve_done.notify_one();
             })
         };
+        if let Some(t) = case.early_close_ms {
+            let net = net.clone();
+            let scen = scen.clone();
+            tokio::spawn(async move {
+                tokio::time::sleep(Duration::from_millis(t as u64)).await;
+                scen.lock().unwrap().listener_closed_ms = rt::virtual_ms();
+                net.close_listener();
+            });
+        }
         // ---- connections, all at t = 0
         let mut channels = vec![];
         for _ in 0..n_conns {
@@ -287,8 +326,13 @@ pub fn run(c: &Case, o: &mut Outcome) -> Result<(), Failure> {
             let ch0 = channels[0].clone();
             let (pc, pk) = (case.post_conn, case.post_call);
             let closer = case.close_listener;
+            let serve_done = serve_done.clone();
             tokio::spawn(async move {
-                fired.notified().await;
+                tokio::select! {
+                    _ = fired.notified() => {}
+                    // the server wound down by itself (incoming stream ended before the signal)
+                    _ = serve_done.notified() => return,
+                }
                 if closer {
                     // the incoming stream ends while accepted calls are still draining
                     net.close_listener();
@@ -344,7 +388,10 @@ pub fn run(c: &Case, o: &mut Outcome) -> Result<(), Failure> {
         Ok(Ok(s)) => s,
     };
     let log: Vec<CallLog> = sh.log.lock().unwrap().clone();
-    let signal_ms = scen.signal_ms.unwrap_or(u64::MAX);
+    // shutdown starts with the signal, or with the end of the incoming stream if that comes first
+    let signal_ms = scen.signal_ms.unwrap_or(u64::MAX).min(scen.listener_closed_ms.unwrap_or(u64::MAX));
+    o.label_if(scen.listener_closed_ms.map(|t| t < scen.signal_ms.unwrap_or(u64::MAX)).unwrap_or(false), "incoming_ends_before_the_signal");
+    o.label_if(c.max_age_ms.is_some(), "max_connection_age_set");
 
     // ---- classes
     let in_flight: Vec<&CallLog> = log.iter().filter(|l| l.entered_ms.map(|e| e <= signal_ms).unwrap_or(false) && l.completed_ms.map(|d| d >= signal_ms).unwrap_or(true)).collect();
@@ -424,7 +471,7 @@ impl Prop for C13 {
         run(c, o)
     }
     fn rule() -> &'static str {
-        "proptest over shutdown histories in virtual time: Server::serve_with_incoming_shutdown over an mpsc-fed stream of in-memory pipes; 1-3 connections x 1-4 calls (unary with latency; server-streaming / bidi with 0-4 messages and inter-message delays; OK or error outcomes), start times 0-120 ms; the signal fires at a virtual time 1-300 ms or is triggered by a handler event (handler i entered / handler i sent message j / handler i completed); pipe fragmentation per connection; scheduler seed; optionally one more connection offered and one more call on an old connection after the signal. Oracle (history invariants): every call whose handler was entered is never cancelled (drop guard), completes, and its client outcome equals the script; calls that never reached a handler may fail but never report success; no handler runs for a connection offered after the signal; the serve future resolves (virtual-time watchdog, client channels still alive), not before the signal, not before the server half of every accepted connection closed, not before every handler finished. Non-trivial: the signal lands while >=1 handler is entered and unfinished. Also: a non-transient error item injected into the incoming stream before the signal (the server keeps serving and still drains), and streams that go on for 25 s after the signal (longer than the HTTP/2 keep-alive timeout)."
+        "proptest over shutdown histories in virtual time: Server::serve_with_incoming_shutdown over an mpsc-fed stream of in-memory pipes; 1-3 connections x 1-4 calls (unary with latency; server-streaming / bidi with 0-4 messages and inter-message delays; OK or error outcomes), start times 0-120 ms; the signal fires at a virtual time 1-300 ms or is triggered by a handler event (handler i entered / handler i sent message j / handler i completed); pipe fragmentation per connection; scheduler seed; optionally one more connection offered and one more call on an old connection after the signal. Oracle (history invariants): every call whose handler was entered is never cancelled (drop guard), completes, and its client outcome equals the script; calls that never reached a handler may fail but never report success; no handler runs for a connection offered after the signal; the serve future resolves (virtual-time watchdog, client channels still alive), not before the signal, not before the server half of every accepted connection closed, not before every handler finished. Also: the incoming stream ending at its own time (before the signal: the server drains by itself and must still wait for its connections) and Server::max_connection_age expiring before or after the signal. Non-trivial: the signal (or the earlier end of the incoming stream) lands while >=1 handler is entered and unfinished. Also: a non-transient error item injected into the incoming stream before the signal (the server keeps serving and still drains), and streams that go on for 25 s after the signal (longer than the HTTP/2 keep-alive timeout)."
     }
     fn assumptions() -> Vec<String> {
         vec![
